@@ -266,7 +266,7 @@ func contentAccessesD(f *ssa.Function, depth int) []contentAcc {
 	eachInstr(f, func(in ssa.Instruction) {
 		// accesses made by an unexported helper of the same package count at the call site
 		if c, ok := in.(*ssa.Call); ok && depth < 2 {
-			if sc := c.Call.StaticCallee(); sc != nil && sc.Pkg == f.Pkg && len(sc.Blocks) > 0 && !isEntryPoint(sc) && sc.Name() != "truncate" {
+			if sc := c.Call.StaticCallee(); sc != nil && sc.Pkg == f.Pkg && len(sc.Blocks) > 0 && !isEntryPoint(sc) && nm(sc) != "truncate" {
 				for _, sub := range contentAccessesD(sc, depth+1) {
 					out = append(out, contentAcc{c, sub.write, sub.what + " (in " + sc.Name() + ")"})
 				}
@@ -306,7 +306,7 @@ func contentAccessesD(f *ssa.Function, depth int) []contentAcc {
 				}
 			}
 		case *ssa.Call:
-			if fn := calleeFunc(x); fn != nil && fn.Name() == "truncate" {
+			if fn := calleeFunc(x); fn != nil && nm(fn) == "truncate" {
 				out = append(out, contentAcc{x, true, "truncate"})
 			}
 		}
@@ -406,7 +406,7 @@ func symD(v ssa.Value, d int) string {
 		if b, ok := x.Call.Value.(*ssa.Builtin); ok && len(x.Call.Args) > 0 {
 			return b.Name() + "(" + symD(x.Call.Args[0], d+1) + ")"
 		}
-		if fn := calleeFunc(x); fn != nil && (fn.Name() == "size" || fn.Name() == "Size") && len(x.Call.Args) == 1 {
+		if fn := calleeFunc(x); fn != nil && (nm(fn) == "size" || fn.Name() == "Size") && len(x.Call.Args) == 1 {
 			// size() of a file node is int64(len(data))
 			return "len(" + objKeyOf(x.Call.Args[0]).s + ".data)"
 		}
@@ -615,12 +615,12 @@ func nonNegative(f *ssa.Function, v ssa.Value, at ssa.Instruction, depth int) (s
 		return nonNegative(f, x.X, at, depth+1)
 	case *ssa.Call:
 		if b, ok := x.Call.Value.(*ssa.Builtin); ok {
-			switch b.Name() {
+			switch nm(b) {
 			case "len", "cap", "copy":
 				return b.Name() + "() result", true
 			}
 		}
-		if fn := calleeFunc(x); fn != nil && (fn.Name() == "size" || fn.Name() == "Size") {
+		if fn := calleeFunc(x); fn != nil && (nm(fn) == "size" || fn.Name() == "Size") {
 			return "size() is a length", true
 		}
 		// an unexported function of the same package all of whose returned values are non-negative
@@ -668,7 +668,7 @@ func nonNegative(f *ssa.Function, v ssa.Value, at ssa.Instruction, depth int) (s
 			return "every incoming value is non-negative", true
 		}
 	case *ssa.Parameter:
-		if f.Name() == "truncate" {
+		if nm(f) == "truncate" {
 			return "precondition of truncate, established at every call site (see the `call truncate` obligations)", true
 		}
 		// a parameter of an unexported function: non-negative when every call site in the package passes such a value
@@ -774,7 +774,7 @@ func c02Bounds(rc *RuleCtx) {
 					}
 				case *ssa.Call:
 					fn := calleeFunc(x)
-					if fn == nil || fn.Name() != "truncate" {
+					if fn == nil || nm(fn) != "truncate" {
 						return
 					}
 					args := callArgs(x)
@@ -903,7 +903,7 @@ func c02Detached(rc *RuleCtx) {
 						}
 					case ssa.CallInstruction:
 						if sc := x.Common().StaticCallee(); sc != nil && sc.Pkg == f.Pkg {
-							if sc.Name() == "searchNode" {
+							if nm(sc) == "searchNode" {
 								bad = "walks a path (searchNode) from a file method: after a rename or remove the handle would reach another file or fail"
 								return
 							}
